@@ -41,7 +41,7 @@ def make_handler(sig):
     ann = {}
     names = []
     for i, p in enumerate(sig["params"]):
-        n = "p%d" % i
+        n = (sig.get("pnames") or {}).get(str(i)) or "p%d" % i
         names.append(n)
         if p["kind"] == "plain":
             ann[n] = T.to_spec(tt(p["t"])).annotation_type()
@@ -193,6 +193,11 @@ def method_job(job: Dict[str, Any]) -> Dict[str, Any]:
     want = [sig_string(x) for x in (list(sib[:pos]) + [sig] + list(sib[pos:]))]
     if csigs != want:
         out["violations"].append(dict(base, kind="contract", detail="contract describes %r, registered %r" % (csigs, want)))
+    if sig.get("pnames"):
+        mine = next((m for m in ms if m["name"] == (sig.get("registered_name") or sig["name"])), None)
+        wantn = [(sig.get("pnames") or {}).get(str(i)) or "p%d" % i for i in range(len(sig["params"]))]
+        if mine is not None and [a.get("name") for a in mine["args"]] != wantn:
+            out["violations"].append(dict(base, kind="contract", detail="contract names the parameters %r, declared %r" % ([a.get("name") for a in mine["args"]], wantn)))
     try:
         prog = parse(ap)
     except TealSyntaxError as e:
